@@ -8,7 +8,10 @@ namespace Receptor.Verify
 /-- **Tie (translator)**: the supported pin lengths, the order parse → pins → chain → receptor
 name in `ReceptorVerifyFunc` (each failure returns an error), the role key usages, what
 `GetClientTLSConfig` installs per mode, and the expression the stream listener derives the
-expected client name from. -/
+expected client name from; the verifier is a closure that keeps nothing between handshakes and reads the
+clock at each of them, compares the pins with the digest of the leaf only; a server profile that requires a
+client certificate asks for `RequireAndVerifyClientCert` whatever else is configured, and the stream listener
+binds the client name exactly in that case. -/
 theorem C09_facts :
     Receptor.Facts.rvf_pin_lengths = "28,32,48,64"
     ∧ Receptor.Facts.rvf_steps = "parse,pins,chain,name"
@@ -16,8 +19,12 @@ theorem C09_facts :
     ∧ Receptor.Facts.rvf_name_rule = "expectedHostnameType == ExpectedHostnameTypeReceptor;!found:ReceptorCertNameError"
     ∧ Receptor.Facts.rvf_name_compare = "receptorName == expectedHostname"
     ∧ Receptor.Facts.tls_client_cfg = "!tlscfg.InsecureSkipVerify:VerifyPeerCertificate;DNS:ServerName;Receptor:InsecureSkipVerify"
-    ∧ Receptor.Facts.tls_listener_expected = "strings.Split(hi.Conn.RemoteAddr().String(), \":\")[0];ExpectedHostnameTypeReceptor;VerifyClient" := by
-  decide
+    ∧ Receptor.Facts.tls_listener_expected = "strings.Split(hi.Conn.RemoteAddr().String(), \":\")[0];ExpectedHostnameTypeReceptor;VerifyClient"
+    ∧ Receptor.Facts.rvf_closure = "single-return-closure;CurrentTime:time.Now()x2;empty-chain:refused"
+    ∧ Receptor.Facts.rvf_pin_subject = "certs[0].Raw"
+    ∧ Receptor.Facts.tls_server_clientauth = "cfg.RequireClientCert:RequireAndVerifyClientCert;cfg.ClientCAs != \"\":VerifyClientCertIfGiven;default:NoClientCert;assignments:3"
+    ∧ Receptor.Facts.tls_listener_bind_when = "tlscfg.ClientAuth == tls.RequireAndVerifyClientCert" := by
+  decide +kernel
 
 /-- **accept_iff.** The connection is accepted exactly when the certificate parses, the pin rule
 is satisfied, it chains to the configured authority, is currently valid, is usable for the
@@ -93,6 +100,46 @@ def exPeer : Peer :=
 example : decide { pins := [List.replicate 32 7], expected := [110, 49], mode := .receptor, role := .server } exPeer = true := by
   decide
 example : decide { pins := [List.replicate 32 7], expected := [110, 49], mode := .receptor, role := .client } exPeer = false := by
+  decide
+
+/-- **only_the_leaf_counts.** Appending certificates to the presented chain — a copy of a pinned certificate, of
+another node's certificate — never turns a refused peer into an accepted one: the verdict is the verdict on the leaf. -/
+theorem only_the_leaf_counts (c : Cfg) (leaf : Peer) (extras extras' : List Peer) :
+    decideChain c (leaf :: extras) = decideChain c (leaf :: extras') ∧ decideChain c (leaf :: extras) = decide c leaf :=
+  ⟨rfl, rfl⟩
+
+/-- **required_client_cert_binds_source.** On a listener whose profile requires a client certificate — with or
+without a `clientcas` bundle — a stream is established only with a certificate that chains, is valid, is usable by
+a client and names the node the packets come from: a node cannot present another node's identity, nor none. -/
+theorem required_client_cert_binds_source (hasCAs : Bool) (source : Bytes) (cert : Option Peer)
+    (h : established true hasCAs source cert = true) :
+    ∃ p, cert = some p ∧ p.parsed = true ∧ p.chainOK = true ∧ p.validNow = true ∧ p.usageClient = true
+      ∧ ∃ l, p.names = some l ∧ source ∈ l := by
+  unfold established serverClientAuth at h
+  simp only [if_true] at h
+  cases cert with
+  | none => simp at h
+  | some p =>
+    refine ⟨p, rfl, ?_⟩
+    simp only [decide, Bool.and_eq_true, usageOK, nameOK] at h
+    obtain ⟨⟨⟨⟨⟨h1, _⟩, h3⟩, h4⟩, h5⟩, h6⟩ := h
+    refine ⟨h1, h3, h4, h5, ?_⟩
+    cases hn : p.names with
+    | none => simp [hn] at h6
+    | some l =>
+      refine ⟨l, rfl, ?_⟩
+      simpa [hn] using h6
+
+/-- the listener binds the client name whenever the profile requires a client certificate -/
+theorem require_implies_binding (hasCAs : Bool) : listenerBindsClientName (serverClientAuth true hasCAs) = true := by
+  cases hasCAs <;> rfl
+
+/-- Witness of the variant in which a `clientcas` bundle downgrades the requirement: another node's (trusted)
+certificate opens a stream. -/
+theorem C09_witness_downgrade :
+    let other : Peer := { parsed := true, chainOK := true, validNow := true, usageServer := true, usageClient := true, dnsOK := false,
+                          names := some [[110, 51]], digest := fun _ => [] }
+    established true true [110, 50] (some other) = false ∧ established false true [110, 50] (some other) = true := by
   decide
 
 end Receptor.Verify
